@@ -178,7 +178,8 @@ def runCase : CaseFn := fun c => Id.run do
         for tag in tags do
           let isMismatch := tag == "returned-mismatch" || tag == "cached-mismatch" || tag == "persisted-mismatch"
           let shape := if isMismatch && stale then "db-filter-after-header-change" else tag
-          out := out.push s!"ORACLE-FAIL C05 case {c.num} line {ln}: [shape={shape} ] ({tag}) {(op.take 160).toString} => {(obs.take 200).toString}"
+          let why := if isMismatch then "a filter the code returned / cached / persisted does not hash-chain to the stored filter header of THAT block: H(filterhash, header(h-1)) != header(h), recomputed by the harness from the real bytes; " else ""
+          out := out.push s!"ORACLE-FAIL C05 case {c.num} line {ln}: [shape={shape} ] ({tag}) {why}{(op.take 160).toString} => {(obs.take 200).toString}"
         before := { cache := o.cache, db := o.db }
         if !diverged then
           let m := getCFilter (hashingOf xs) st call
